@@ -448,6 +448,16 @@ def apply_rewrites(src, mask, it, ed, stats, spec_entry):
         if any(x <= lo + m.start() and lo + m.end() <= y + 1 for x, y in r4_ranges): continue
         ed.replace(lo + m.start(), lo + m.end(), 'crate::spec::f32_%s()' % {'MAX': 'max_value', 'MIN': 'min_value', 'INFINITY': 'infinity', 'NEG_INFINITY': 'neg_infinity', 'EPSILON': 'epsilon', 'NAN': 'nan'}[m.group(1)])
         stats['R7_cast_f32'] = stats.get('R7_cast_f32', 0) + 1
+    # R13: the two comparator closures the crate sorts with: `E.sort_by(|a, b| a.partial_cmp(b).unwrap());` / `E.sort_by(|a, b| a.total_cmp(b));`
+    #      => named wrappers whose bodies are these very calls (assumed contracts: a permutation ordered by the comparator)
+    for x in re.finditer(r'(?<![\w.])((?:\*?[A-Za-z_]\w*)(?:\.[A-Za-z_]\w*)*)\.sort_by\s*\(\s*\|\s*(\w+)\s*,\s*(\w+)\s*\|\s*(\w+)\.(partial_cmp\(\s*(\w+)\s*\)\.unwrap\(\)|total_cmp\(\s*(\w+)\s*\))\s*\)\s*;', body):
+        if mask[lo + x.start()] != ord('c'): continue
+        E, A, B, recv = x.group(1), x.group(2), x.group(3), x.group(4)
+        arg = x.group(6) or x.group(7)
+        if recv != A or arg != B: continue          # only the ascending form `|a, b| a.cmp(b)`
+        fn_ = 'sort_by_partial_cmp' if x.group(5).startswith('partial') else 'sort_by_total_cmp'
+        ed.replace(lo + x.start(), lo + x.end(), 'crate::spec::%s(&mut %s);' % (fn_, E) + '\n' * src.count('\n', lo + x.start(), lo + x.end()))
+        stats['R13_sort_by'] = stats.get('R13_sort_by', 0) + 1
     # R11: `V[N].to_string()` (an element of a local vector, printed through its Display impl) => `to_string_w(&V[N])`: a wrapper whose body is
     #      the original call; its result is a deterministic, otherwise uninterpreted, function of the value (`str_of`).  vstd's own contract of
     #      ToString::to_string says nothing about the result, so two printed forms could not even be compared.
